@@ -188,7 +188,11 @@ def run(ctx):
         coords = {"kind": "hue", "op": ev.get("op"), "ty": ev.get("ty"), "t": ev.get("t"), "m": ev.get("m"), "x": x0}
         what = "%s - %s" % (describe(ev), REASONS.get(info.strip().strip('"'), info))
         report(ctx, coords, what, {"bin": "hue", "event": ev, "trace_line": line, "how": "./check C11 --replay <this file>"})
-    cal, n_band = calibrate(tp, every=1 if ctx.quick else 7)
+    try:      # book-keeping of the margins only: it must never stand between the verdict and its report
+        cal, n_band = calibrate(tp, every=1 if ctx.quick else 7)
+    except Exception as ex:
+        log("C11: margin book-keeping failed on this recording (%s: %s); the verdict is unaffected" % (type(ex).__name__, ex))
+        cal, n_band = {}, 0
     ctx.cov["distinct_nontrivial"] = count_distinct(tp, lambda e: json.dumps([e["op"], e["t"], e["ty"], e["m"], e["in"], e["k"]]), nontrivial)
     return finish(ctx, "model_checking",
                   rule="a case is one call of the hue API (operation, hue type, component type, exact inputs); distinct by "
